@@ -372,7 +372,7 @@ func NewTagger() *Tagger { return &tagger{} }
 // (even chunk counts, as RFC 3611 requires for alignment) and unknown kinds.
 func XRBlockAlphabet() []XRBlock {
 	var out []XRBlock
-	for _, n := range []int{0, 2, 4} {
+	for _, n := range []int{0, 2, 4, 10} {
 		n := n
 		out = append(out, XRBlock{Name: fmt.Sprintf("LossRLE,chunks=%d", n), Core: n == 2, Make: func(t *tagger) rtcp.ReportBlock {
 			b := &rtcp.LossRLEReportBlock{T: t.u8() & 0xf, SSRC: t.u32(), BeginSeq: t.u16(), EndSeq: t.u16()}
@@ -389,7 +389,7 @@ func XRBlockAlphabet() []XRBlock {
 			return b
 		}})
 	}
-	for _, n := range []int{0, 1, 2, 3} {
+	for _, n := range []int{0, 1, 2, 3, 9} {
 		n := n
 		out = append(out, XRBlock{Name: fmt.Sprintf("PacketReceiptTimes,times=%d", n), Core: n == 3, Make: func(t *tagger) rtcp.ReportBlock {
 			b := &rtcp.PacketReceiptTimesReportBlock{T: t.u8() & 0xf, SSRC: t.u32(), BeginSeq: t.u16(), EndSeq: t.u16()}
